@@ -1,14 +1,14 @@
 #!/bin/bash
-# ingest_benign.sh <Cxx>: take the behaviour-preserving changes an agent left in /tmp/wt3-<Cxx>/seeded_out/b*, check that each applies and
+# ingest_benign.sh <Cxx> [wt-prefix] [name-suffix]: take the behaviour-preserving changes an agent left in /tmp/<wt-prefix>-<Cxx>/seeded_out/b*, check that each applies and
 # passes the suite, store them under seeded/benign/<Cxx>-b<i>/, remove the worktree, and run all 20 checks against each (all must exit 0).
-pid="$1"; wt=/tmp/wt3-$pid
+pid="$1"; wtp="${2:-wt3}"; suf="${3:-}"; wt=/tmp/$wtp-$pid
 [ -d "$wt/seeded_out" ] || { echo "no seeded_out in $wt"; exit 1; }
 new=""
 for m in $wt/seeded_out/b*; do
   [ -f "$m/patch.diff" ] || continue
   ( cd $wt && git checkout -q -- . && git apply "$m/patch.diff" ) || { echo "$(basename $m): patch does not apply"; continue; }
   if ( cd $wt && cargo test --offline --lib --no-default-features 2>&1 | grep -q "^test result: ok. 39 passed" ); then
-    dst=/verif/seeded/benign/$pid-$(basename $m); mkdir -p $dst; cp $m/patch.diff $m/what.txt $dst/ 2>/dev/null; new="$new $dst"
+    dst=/verif/seeded/benign/$pid-$suf$(basename $m); mkdir -p $dst; cp $m/patch.diff $m/what.txt $dst/ 2>/dev/null; new="$new $dst"
   else echo "$(basename $m): suite does not pass - dropped"; fi
   ( cd $wt && git checkout -q -- . )
 done
